@@ -177,7 +177,13 @@ def check(ctx):
     ctx.assume("declared range for the oil viscosity clauses: " + ", ".join(f"{k} in {v}" for k, v in OIL_BOX.items()) + " (API, deg F, scf/bbl)")
     fvis = P.func(OIL + "viscosity_beggs_robinson")
     UP_BOX = dict(OIL_BOX, **{"pressure": (14.7, 20000.0), "@pb": (14.7, 10000.0), "solution_gor_initial": (0.0, 3000.0)})
-    vp = returns(run(ctx, OIL + "viscosity_beggs_robinson", stubs={RQ: lambda b: _Num(nf.sym("@Rs")), PBQ: lambda b: _Num(nf.sym("@pb"))}))
+    from .common import wrapper_stubs
+
+    vstubs = {RQ: lambda b: _Num(nf.sym("@Rs")), PBQ: lambda b: _Num(nf.sym("@pb"))}
+    # a private worker through which solution_gor_Standing obtains its value is the solution GOR too, when it is called
+    # with what solution_gor_Standing would hand it for the same fluid
+    vstubs.update(wrapper_stubs(ctx, RQ, vstubs[RQ], {PBQ: vstubs[PBQ]}))
+    vp = returns(run(ctx, OIL + "viscosity_beggs_robinson", stubs=vstubs))
     for p in vp:
         if not p.decisions or not isinstance(p.value, _Num):
             continue
